@@ -75,7 +75,9 @@ class NP:
       if attr == 'T':
         return [(p, self.transpose(cx, base))]
       if attr == 'dtype':
-        return [(p, VOpaque('dtype:' + st.kind))]
+        d_ = VOpaque('dtype:' + st.kind)
+        d_.of_term = st.term            # np.finfo(w.dtype).eps is the machine epsilon OF THAT ARRAY's precision
+        return [(p, d_)]
       if attr == 'real':
         return [(p, cx.new(st.term if st.kind != 'c' else None, st.shape.dims, 'f' if st.kind == 'c' else st.kind,
                            st.owner, base=(base.loc, st.version)))]
